@@ -403,6 +403,13 @@ class ConfEval:
                 elif isinstance(out, dict):
                     out[k.arg] = v
             return out
+        if fn == "dict.fromkeys" and len(e.args) in (1, 2):
+            keys = self.ev(e.args[0], env)
+            val = self.ev(e.args[1], env) if len(e.args) == 2 else None
+            if isinstance(keys, dict):
+                return {k: val for k in keys}
+            if isinstance(keys, (list, tuple)):
+                return {self._key(k): val for k in keys}
         if fn in ("list", "tuple", "sorted", "set") and len(e.args) == 1:
             v = self.ev(e.args[0], env)
             if isinstance(v, (list, tuple)):
